@@ -138,6 +138,7 @@ def execute(case, ctx):
         rout = real_eval(parser, src, names, budget=5000, rec=rec)
         ctx.event(step, rout.kind, [(f[0], [(e[0], e[1]) for e in f[1]]) for f in rec.findings])
         ctx.op_kind(rout.kind)
+        ctx.state(canon.digest([len(REGEX.entries), round(VCLOCK.offset, 2), rout.kind]))
         ctx.stats['virtual_ms'] += int((VCLOCK.offset - off_before) * 1000)
         what = 'step %d %r' % (step, src[:200])
         if rout.kind == 'base':
